@@ -170,7 +170,8 @@ class Tr:
         self.mutated = self._mutated_fields()
         # the result type of every term
         parts = (([] if self.ret == "Unit" else [self.ret]) + [self.fields[f] for f in self.mutated]
-                 + [(self.params.get(q) or parse_type(spec.get("extra_params", {})[q])) for q in self.mut_params])
+                 + [(self.params.get(q) or parse_type((spec.get("extra_params", {}).get(q) or spec.get("init", {})[q][1])))
+                    for q in self.mut_params])
         if not parts:
             self.res_type = "Unit"
         elif len(parts) == 1:
@@ -1265,7 +1266,8 @@ class Tr:
         """Python names that are Lean keywords get a trailing underscore (parameters, locals, and the keys of the spec's
         `params` / `locals` tables; Lean texts given in the spec use the new name)"""
         kw = self.LEAN_KEYWORDS
-        ren = lambda n: n + "_" if n in kw else n  # noqa
+        extra = self.spec.get("rename", {})   # two locals of disjoint scopes read as one (e.g. `out_info` as `in_info`)
+        ren = lambda n: extra.get(n, n + "_" if n in kw else n)  # noqa
 
         class Rn(ast.NodeTransformer):
             def visit_Name(self, node):
@@ -1325,7 +1327,14 @@ class Tr:
         # values of calls into code that is not translated (given as additional parameters, see `consts`)
         for a, t in self.spec.get("extra_params", {}).items():
             env[a] = parse_type(t)
-        body = self.T(list(self.fn.body), env, lambda e: [self.result(e, "()")] if self.ret == "Unit" else ["throw Err.other  -- fell off the end without a value"])
+        # spec["init"]: locals bound before the first statement (an object created by a constructor call that the spec reads
+        # as flat variables, e.g. `info = Info(time=None, grid=None)` -> info_time, info_grid, info_meta)
+        env_body = dict(env)
+        init_lines = []
+        for nm, (code, ty) in self.spec.get("init", {}).items():
+            env_body[nm] = parse_type(ty)
+            init_lines.append(f"let {nm} := {code}")
+        body = init_lines + self.T(list(self.fn.body), env_body, lambda e: [self.result(e, "()")] if self.ret == "Unit" else ["throw Err.other  -- fell off the end without a value"])
         vs = list(env)
         if self.recursive:
             main = (f"def {self.name} {self.header_generic()}{'(h : Py.Heap) ' if self.heap else ''}(fuel0 : Nat) "
